@@ -896,6 +896,27 @@ def translate(repo):
                 rows.append(("ops", _ops(g, ("a", "b")), lines) if kind in ("ok", "skip") else ("raise", kind[1], lines))
         T["dec_tetrad"][cls] = rows
 
+    # ---- file handles: reader and writer must open the file the same way (text mode, same encoding / newline / errors)
+    def _open_call(fname):
+        calls = [n for n in ast.walk(_func(it, fname)) if isinstance(n, ast.Call) and isinstance(n.func, ast.Name) and n.func.id == "open"]
+        if len(calls) != 1:
+            raise TranslationError("T:tetrad.py: %s must contain exactly one open() call" % fname)
+        c = calls[0]
+        if len(c.args) != 2 or not isinstance(c.args[1], ast.Constant) or it.text(c.args[0]) != "filename":
+            raise TranslationError("T:tetrad.py:%d: open() of %s is not open(filename, <mode literal>)" % (c.lineno, fname))
+        kws = {}
+        for kw in c.keywords:
+            if kw.arg != "encoding" or not isinstance(kw.value, ast.Constant):
+                raise TranslationError("T:tetrad.py:%d: open() keyword %s in %s" % (c.lineno, kw.arg, fname))
+            kws[kw.arg] = kw.value.value
+        return c.args[1].value, kws, c.lineno
+    rmode, rkw, rline = _open_call("tetrad_to_graph")
+    wmode, wkw, wline = _open_call("graph_to_tetrad")
+    if rmode != "r" or wmode != "w" or rkw != wkw:
+        raise TranslationError("T:tetrad.py:%d/%d: reader open(%r, %r) and writer open(%r, %r) do not agree"
+                               % (rline, wline, rmode, rkw, wmode, wkw))
+    T["tetrad_open"] = {"reader": [rmode, rkw], "writer": [wmode, wkw]}
+
     # ---- the label grammar of tetrad_to_graph: whole little files are fed line by line through the translated loop
     # body (node-line branch included, so an unsupported construct there fails closed too); a character / label is
     # 'free' if labels containing it come back as exactly the nodes and the edge that were written
